@@ -169,17 +169,17 @@ STYLES = ['plain', 'crlf', 'pad', 'trail', 'decorate', 'duplicate']
 
 def run(tier: str) -> int:
     res = Result('C12', tier)
-    r = tlc.run_tlc('InputFile', 'MC_InputFile.cfg', workers=8, timeout=600)
+    r = tlc.run_tlc('InputFile', 'MC_InputFile.cfg', workers=8, timeout=2400)
     tlc.check_mc(r, 'MC_InputFile.cfg', ['AddParam', 'AddDecoration'])
     if r['violated']:
         raise MachineryFailure(f'InputFile.tla violates {r["violated"]}\n' + r['raw'][-2000:])
     res.add_mc(r, 'MC_InputFile.cfg')
-    h = tlc.run_tlc('History', 'MC_History.cfg', workers=4, timeout=300)
+    h = tlc.run_tlc('History', 'MC_History.cfg', workers=4, timeout=2400)
     tlc.check_mc(h, 'MC_History.cfg', ['Run'])
     if h['violated']:
         raise MachineryFailure('History.tla violated')
     res.add_mc(h, 'MC_History.cfg')
-    d = tlc.run_tlc('InputFile', 'Dump_InputFile.cfg', workers=1, coverage=False, timeout=900)
+    d = tlc.run_tlc('InputFile', 'Dump_InputFile.cfg', workers=1, coverage=False, timeout=2400)
     tlc.check_mc(d, 'dump')
     files = [p for p in d['prints'] if isinstance(p, dict) and 'file' in p]
     if not files:
